@@ -546,6 +546,22 @@ def _returns_through(repo, fn, depth=0, keep=("max_dsoc", "stay_dur", "transitio
     for r in [n for n in fl.cfg.nodes if n.kind == "return" and n.expr is not None]:
         e = _close_over(repo, fn, fl.expand(r.expr, r), keep)
         facts = [(_close_over(repo, fn, fl.expand(a, r), keep), t) for a, t in facts_at(fl, r)]
+        if "__phi__" in canon(e):
+            # a value chosen by the guard clauses of a helper that was spliced in: one piece per arm, each with the tests that select it
+            from ..rules import gexpand
+            from .c14 import _split_ifexp
+
+            class G(ast.NodeTransformer):
+                def visit_Call(self, n_):
+                    n_ = self.generic_visit(n_)
+                    if call_name(n_) == "__gamma__" and len(n_.args) == 3:
+                        return ast.IfExp(test=n_.args[0], body=n_.args[1], orelse=n_.args[2])
+                    return n_
+            ge = G().visit(_close_over(repo, fn, gexpand(fl, r.expr, r), keep))
+            if "__phi__" not in canon(ge):
+                for arm, fs in _split_ifexp(ge, facts):
+                    out.append((arm, fs))
+                continue
         cn = call_name(e) if isinstance(e, ast.Call) else None
         tgt = [f for q, fs in repo.funcs.items() for f in fs if cn and q.split(".")[-1] == cn and f.module == fn.module]
         if isinstance(e, ast.Call) and isinstance(e.func, ast.Name) and len(tgt) == 1 and depth < 3:
@@ -625,7 +641,7 @@ def rule_fit_law(ck, rid="C15.R7"):
     s_ = S.Symbol("s")
     R = 1 + (s_ - 1) * S.exp(-M * T / (1 - ts))
     assert cas.is_zero(S.diff(R, T) - M * (1 - R) / (1 - ts)) and cas.is_zero(R.subs(T, 0) - s_)
-    env2 = {"max_dsoc": M, "stay_dur": T, "transition_soc": ts, "delta_soc": dl}
+    env2 = {"max_dsoc": M, "stay_dur": T, "transition_soc": ts, "delta_soc": dl, "requested_energy / battery_cap": dl}
     fl.keep = {"max_dsoc", "delta_soc"}
     n_c = 0
     try:
